@@ -481,6 +481,11 @@ func init() {
 			return crs, ctag
 		}
 		for i := 0; i < n; i++ {
+			if g.Chance(0.03) {
+				wildCase(r, g)
+				haveLast = false
+				continue
+			}
 			if g.Chance(0.12) {
 				steps, tags := callSequence(g, repo)
 				r.Run(run.Case{Prop: "C18", Fn: "CallSequence", Args: []w.Val{steps}, Tags: tags})
@@ -640,6 +645,66 @@ func callSequence(g *Gen, repo *wgs84.Repository) (w.Val, []string) {
 		}
 	}
 	return steps, []string{"call-sequence", tag, Tag("seq-len=%d", len(codes))}
+}
+
+// wildCase: coordinates that no valid point has - NaN, +-Inf, 1e308, 1e19, -0 - in any field, in both directions and inside call
+// sequences, combined with unknown codes (the answer is decided by the code alone: conversion error) and with known codes (the wrapper
+// contract is judged against the library's own answers; no numeric claim). The dispatch entries must judge these, never reject them.
+func wildCase(r *run.Runner, g *Gen) {
+	wild := func() float64 {
+		return g.PickF(math.NaN(), math.Inf(1), math.Inf(-1), 1e308, -1e308, math.MaxFloat64, 1e19, -1e19, 181, -90.5, 1e-320, math.Copysign(0, -1))
+	}
+	tame := func() float64 { return g.PickF(0, 139, 35, -45.5, 12.5, 1.5473409220265027e+07, -4.1638811440642914e+06, 100) }
+	triple := func() w.Val {
+		c := []float64{tame(), tame(), tame()}
+		c[g.Intn(3)] = wild()
+		if g.Chance(0.3) {
+			c[g.Intn(3)] = wild()
+		}
+		return w.L(w.F(c[0]), w.F(c[1]), w.F(c[2]))
+	}
+	list := func() w.List {
+		k := 1 + g.Intn(4)
+		l := make(w.List, k)
+		for j := range l {
+			if g.Chance(0.6) {
+				l[j] = triple()
+			} else {
+				l[j] = w.L(w.F(tame()), w.F(tame()), w.F(g.PickF(0, 7, -3)))
+			}
+		}
+		return l
+	}
+	code := func() (int, string) {
+		switch g.Intn(4) {
+		case 0:
+			return unknownCode(g), "wild-unknown-code"
+		case 1:
+			return int(g.Pick(9223372036854775807, -9223372036854775808, 4294970153, -4326, 1<<40)), "wild-huge-code"
+		case 2:
+			return consts.OrthCrs, "wild-3857"
+		}
+		return knownCode(g), "wild-known-code"
+	}
+	crs, ctag := code()
+	tags := []string{"non-finite-or-huge-coordinates", ctag}
+	switch g.Intn(3) {
+	case 0:
+		r.Run(run.Case{Prop: "C18", Fn: "ConvertPointListToProjectedPointList", Args: []w.Val{list(), w.I(int64(crs))}, Tags: append(tags, "wild-forward")})
+	case 1:
+		r.Run(run.Case{Prop: "C18", Fn: "ConvertProjectedPointListToPointList", Args: []w.Val{list(), w.I(int64(crs))}, Tags: append(tags, "wild-backward")})
+	default:
+		n := 2 + g.Intn(3)
+		steps := make(w.List, n)
+		for j := range steps {
+			c := crs
+			if g.Chance(0.4) {
+				c, _ = code()
+			}
+			steps[j] = w.L(w.I(int64(g.Intn(2))), list(), w.I(int64(c)))
+		}
+		r.Run(run.Case{Prop: "C18", Fn: "CallSequence", Args: []w.Val{steps}, Tags: append(tags, "wild-sequence")})
+	}
 }
 
 // fixed cases run first on every run: the witnesses of the two repaired defects (an error must be observed now) and inputs of the
